@@ -262,11 +262,11 @@ def metaTail (flags : Nat) (colCount : Nat) : P Meta := do
     else pure ())
   if bit flags 2 then pure { cols := [], colCount := colCount }
   else do
-    let globalSpec := bit flags 0
-    (if globalSpec then do let _ ← readString; let _ ← readString; pure () else pure ())
+    -- globalSpec := flags&flagGlobalTableSpec
+    (if bit flags 0 then do let _ ← readString; let _ ← readString; pure () else pure ())
     -- `make([]ColumnInfo, colCount)` below 1000 columns, append (amortised) otherwise
     (if colCount < 1000 then alloc (64 * colCount) else pure ())
-    let cols ← colLoop globalSpec colCount []
+    let cols ← colLoop (bit flags 0) colCount []
     (if colCount < 1000 then pure () else alloc (128 * colCount))
     pure { cols := cols.reverse, colCount := colCount }
 
